@@ -313,7 +313,7 @@ def shard_remove(args):
         uniform = (len(set(nonempty)) == 1) if nonempty else (len(spec) >= 1 and len({a for _, a in spec}) == 1)
         if uniform:
             the_atts = nonempty[0] if nonempty else spec[0][1]
-            for new in ("", "Q", "QR\n"):
+            for new in ("", "Q", "QR\n", "\x1b[31mx", "a\x1b[0mb\x1b[", "\x1b[1;32mhi\x1b[m", "p\x9b1mq"):  # escape sequences in the new text are text
                 case = {"f": C.show_spec(spec), "op": "copy_with_new_str", "new": new}
                 acc.case(bool(new), key=("cs", spec, new), sample=case)
                 acc.transitions += 1
@@ -501,8 +501,44 @@ def check_invalid(acc):
         acc.outcome("accepted")
 
 
+def check_twin_overrides(acc):
+    """An attribute that is already set is set again to a value that compares EQUAL to the old one but is a different object kind
+    (False / 0, True / 1, 31 / 31.0): the result must carry the NEW value, through every way of applying formatting."""
+    from curtsies.formatstring import fmtstr
+
+    twins = [("bold", False, 0), ("bold", 0, False), ("bold", True, 1), ("underline", 1, True), ("fg", 31, 31.0), ("fg", 31.0, 31), ("bg", 44, 44.0), ("invert", False, 0), ("dark", 0, False)]
+    for name, old, new in twins:
+        for text_spec in ((("ab", ((name, old),)),), (("a", ((name, old), ("italic", True))), ("", ()), ("b", ((name, old),)))):
+            ways = [
+                ("copy_with_new_atts", lambda f: f.copy_with_new_atts(**{name: new})), ("fmtstr(f, **kw)", lambda f: fmtstr(f, **{name: new})),
+                ("copy_with_new_atts twice", lambda f: f.copy_with_new_atts(**{name: old}).copy_with_new_atts(**{name: new})),
+                ("fmtstr(fmtstr(f, **old), **new)", lambda f: fmtstr(fmtstr(f, **{name: old}), **{name: new})),
+            ]
+            for label, fn in ways:
+                f = C.build(text_spec)
+                case = {"f": C.show_spec(text_spec), "attribute": name, "old_value": repr(old), "new_value": repr(new), "applied_by": label}
+                acc.case(True, key=("twinover", name, repr(old), repr(new), len(text_spec), label), sample=case)
+                acc.transitions += 1
+                try:
+                    r = fn(f)
+                except Exception as ex:  # noqa
+                    acc.failure("C14:apply_raises:" + type(ex).__name__, case, repr(ex))
+                    continue
+                for ch in r.chunks:
+                    if not ch.s:
+                        continue
+                    got = ch.atts.get(name, "<absent>")
+                    ok = (repr(got) == repr(new)) or (new is False and got == "<absent>")
+                    if not ok:
+                        acc.failure("C14:apply_result", case, "run %r carries %s=%r, the value applied last is %r" % (ch.s, name, got, new))
+                        break
+
+
 def run(ctx):
     rep = Report()
+    acc_t = Acc(seed=ctx.seed)
+    check_twin_overrides(acc_t)
+    rep.merge(acc_t, "twin_value_overrides")
     repeat.run_into(ctx, rep, "C14")
     for d in ctx.pmap(shard_single, [(ctx.tier, ctx.seed, i) for i in range(16)]):
         rep.merge(d, "single_attribute_all_spellings")
